@@ -671,6 +671,8 @@ func runC19(tier string, seed int64, outdir string, replay string) error {
 				return err
 			}
 			c19E2E(w, []c19E2EPlan{p})
+		case k == "renewal-two-submitters":
+			c19GRenew(w, 1)
 		case k == "jobs-concurrent-submit":
 			var p c19BurstPlan
 			if err := json.Unmarshal(rc.In, &p); err != nil {
@@ -841,6 +843,9 @@ func runC19(tier string, seed int64, outdir string, replay string) error {
 	for i := range plans {
 		emitJobs("random", plans[i], snaps[i])
 	}
+	// ---- (b'') both submitters of renewal jobs on the package-level job manager (nothing else of
+	// this property is running now)
+	c19GRenew(w, 3)
 	// ---- (b') submissions from many goroutines at once
 	c19Burst(w, c19BurstPlans(tier, r))
 	// ---- (c) CA selection, and the test-CA logic end to end against two mock ACME CAs
